@@ -2341,7 +2341,11 @@ class DiskObjectStore(PackBasedObjectStore):
             ):
                 pass
         except BaseException:
-            final_pack.close()
+            # The frames of the exception in flight can still hold views of
+            # the mapped pack, which makes closing the mapping fail; the
+            # rejected pack has to go all the same.
+            with suppress(BufferError):
+                final_pack.close()
             with suppress(FileNotFoundError):
                 os.remove(target_pack_path)
             with suppress(FileNotFoundError):
